@@ -136,7 +136,7 @@ def item(child):
         st.tuples(st.just('pkgenv'), st.sampled_from(PKG_ENVS), child),
         st.tuples(st.just('builtin'), st.sampled_from(BUILTIN)),
         st.tuples(st.just('ctx'), st.sampled_from(['foot', 'head', 'ltadd', 'framebox', 'group', 'itemlab', 'hspace', 'phantom', 'alter2']), child),
-        st.tuples(st.just('hidden'), st.sampled_from(['imath', 'dmath', 'equation', 'comment', 'verb', 'ltskip', 'alter1', 'skipregion', 'comment-after-linebreak', 'comment-glued', 'verbatim']),
+        st.tuples(st.just('hidden'), st.sampled_from(['imath', 'dmath', 'equation', 'comment', 'verb', 'ltskip', 'alter1', 'skipregion', 'comment-after-linebreak', 'comment-glued', 'verbatim', 'skipregion-after-comment', 'skipregion-comment-before-end']),
                   st.one_of(zz, st.sampled_from([t[1] for t in PKG_MACROS]))),
         st.tuples(st.just('define'), zz, st.sampled_from(['newcommand0', 'newcommand1', 'def', 'body'])),
         st.tuples(st.just('usebody'), child),
@@ -271,6 +271,10 @@ def rend(w, fl):
                 w.emit('\\LTskip{%s} ' % name)
             elif c == 'alter1':
                 w.emit('\\LTalter{%s}{y} ' % name)
+            elif c == 'skipregion-after-comment':
+                w.emit('\n%% a note\n%%%%%% LT-SKIP-BEGIN\n%s x\n%%%%%% LT-SKIP-END\n' % name)
+            elif c == 'skipregion-comment-before-end':
+                w.emit('\n%%%%%% LT-SKIP-BEGIN\n%s x\n%% a note\n%%%%%% LT-SKIP-END\n' % name)
             elif c == 'skipregion':
                 w.emit('\n%%%%%% LT-SKIP-BEGIN\n%s x\n%%%%%% LT-SKIP-END\n' % name)
         elif k == 'define':
@@ -345,7 +349,9 @@ def check(doc):
     case = {'doc': doc, 'src': src}
     try:
         with watchdog(20):
-            (plain, pos), err = sut.tex2txt(src, pack=pack, dcls=dcls, unkn=True, lang='en')
+            # a replacement list belongs to the text, never to the list of names
+            repl = [None, ['zzA & changed\n', 'zzenvA & changed\n'], ['textcolor & x y\n', 'zzB zzC & merged\n']][len(src) % 3]
+            (plain, pos), err = sut.tex2txt(src, pack=pack, dcls=dcls, unkn=True, lang='en', repl=repl)
     except Exception as e:
         raise Violation('exception:' + sut_frame(e), case, repr(e))
     want = '\n'.join(w.expected) + '\n'
